@@ -68,7 +68,7 @@ def enumerated(tier, seed):
 
 
 def searches(tier):
-    return [("histories", _case, 1600 if tier == "quick" else 120000)]
+    return [("histories", _case, 1600 if tier == "quick" else 40000)]
 
 
 def render(case):
